@@ -53,7 +53,7 @@ def observe(x, depth=0):
 
 
 def main(modname, k, K, only_pair=None):
-    from mc.core import import_repo
+    from mc.core import import_repo, poison
     import_repo()
     mname, _, attr = modname.partition(':')
     mod = importlib.import_module(mname)
@@ -71,6 +71,7 @@ def main(modname, k, K, only_pair=None):
                 env, out = {}, None
                 for i in seq:
                     try:
+                        poison()
                         out = observe(menu[i][1](env))
                     except Exception as e:
                         out = ['raised', type(e).__name__]
@@ -123,8 +124,14 @@ def explore(ctx, prop, modname, k, K):
     if r.returncode != 0 or not r.stdout.strip():
         raise core.HarnessError('pairhist %s %d/%d failed: %s' % (modname, k, K, (r.stderr or r.stdout)[-600:]))
     doc = json.loads(r.stdout.strip().splitlines()[-1])
-    if doc['unstable']:
-        raise core.HarnessError('steps that are not reproducible from the pristine state: %r' % doc['unstable'])
+    for u in doc['unstable']:
+        # the same step, as the first call of two pristine children, observed two different things (with freed memory poisoned by the harness
+        # and no other source of nondeterminism in the menus): the library returns something it did not compute
+        cid = '%s%s ; (alone, twice)' % (prefix, u)
+        if ctx.want(cid) and doc['names'].index(u) % K == k:
+            ctx.case(cid, key=cid, trivial=False)
+            ctx.fail(cid, u.split('(')[0].split('/')[0], 'mismatch', {'first': u.split('/')[0], 'second': u.split('/')[0], 'law': 'reproducible'},
+                     '%s, run as the first call of a pristine process, gives two different answers in two runs' % u)
     ctx.count('sequences_from_pristine_state', doc['pairs'])
     bad = {(d['first'], d['second']): d for d in doc['diffs']}
     names = doc['names']
